@@ -2670,6 +2670,7 @@ func (p *parser) parseLambdaExpr(allowTuple, allowCmd, allowRangeExpr bool) (x a
 		var rhs []ast.Expr
 		var body *ast.BlockStmt
 		var lhsHasParen, rhsHasParen bool
+		var last token.Pos // position just after the lambda's last token
 		p.next()
 		switch p.tok {
 		case token.LPAREN: // (
@@ -2683,11 +2684,15 @@ func (p *parser) parseLambdaExpr(allowTuple, allowCmd, allowRangeExpr bool) (x a
 				}
 				p.next()
 			}
-			p.expect(token.RPAREN)
+			last = p.expect(token.RPAREN) + 1
 		case token.LBRACE: // {
 			body = p.parseLambdaBody()
 		default:
 			rhs = []ast.Expr{p.parseExpr(false, false, false)}
+			last = rhs[0].End()
+		}
+		if !last.IsValid() {
+			last = p.pos
 		}
 		var lhs []*ast.Ident
 		if x != nil {
@@ -2729,7 +2734,7 @@ func (p *parser) parseLambdaExpr(allowTuple, allowCmd, allowRangeExpr bool) (x a
 		}
 		return &ast.LambdaExpr{
 			First:       first,
-			Last:        p.pos,
+			Last:        last,
 			Lhs:         lhs,
 			Rarrow:      rarrow,
 			Rhs:         rhs,
